@@ -4,7 +4,7 @@ import ast
 from ..core.model import AnchorError
 from ..core.cfg import walk_shallow, cfg_of
 from ..core.facts import U, atoms_of
-from ..engine import fn_name, kwarg, local_defs, returns_of, stmts_in, dict_items, vars_assigned_from, var_from_call
+from ..engine import argn, fn_name, kwarg, local_defs, returns_of, stmts_in, dict_items, vars_assigned_from, var_from_call
 from ..kinds import parity
 
 EXPLANATION = (
@@ -37,7 +37,7 @@ def s1(ctx, rep):
     (an, ac), (bn, bc) = adds[0], cmps[0]
     same = U(ac.func.value) == U(kwarg(bc, "rung", 2))
     from ..engine import deref
-    entry = deref(f, ac.args[0])
+    entry = deref(f, argn(ac, 0))
     val_ok = isinstance(entry, ast.Call) and fn_name(entry) == "RungEntry" and U(kwarg(entry, "metric_val", 1)) == U(kwarg(bc, "metric_val", 1)) \
         and U(kwarg(entry, "trial_id", 0)) == U(kwarg(bc, "trial_id", 0))
     p = cfg.path(cfg.entry, bn, deleted={an})
@@ -54,7 +54,7 @@ def s2(ctx, rep):
     rung = U(ac.func.value)
     at = ctx.facts(f).at(an)
     from ..engine import deref
-    entry = deref(f, ac.args[0])
+    entry = deref(f, argn(ac, 0))
     if not isinstance(entry, ast.Call):
         raise AnchorError("StoppingRungSystem.on_task_report: rung.add argument is not a RungEntry(...) value")
     tid = U(kwarg(entry, "trial_id", 0))
@@ -149,7 +149,7 @@ def s5(ctx, rep):
     f = P.method("StoppingRungSystem", "on_task_report")
     loops = [n for n in walk_shallow(f.node) if isinstance(n, ast.For)]
     ok = len(loops) == 1 and isinstance(loops[0].iter, ast.Call) and fn_name(loops[0].iter) == "_milestone_rungs" \
-        and U(loops[0].iter.args[0]) == "skip_rungs"
+        and U(argn(loops[0].iter, 0)) == "skip_rungs"
     rep.put(ok, "S5", "agreement", "StoppingRungSystem.on_task_report scans _milestone_rungs(skip_rungs)", f, loops[0] if loops else None, "",
             "the scan is not restricted to the trial's own rung levels: a trial of a higher bracket is judged at a level that is "
             "not one of its milestones")
@@ -193,7 +193,7 @@ def s5(ctx, rep):
     call = [x for x in walk_shallow(h.node) if isinstance(x, ast.Call) and fn_name(x) == "on_task_report" and U(x.func.value) == rsv]
     ok = len(call) == 1 and skv is not None and U(kwarg(call[0], "skip_rungs", 2)) == skv
     ds = local_defs(h, skv) if skv else []
-    ok = ok and len(ds) == 1 and isinstance(ds[0], tuple) and fn_name(ds[0][1]) == "_get_rung_system" and U(ds[0][1].args[0]) == "trial_id"
+    ok = ok and len(ds) == 1 and isinstance(ds[0], tuple) and fn_name(ds[0][1]) == "_get_rung_system" and U(argn(ds[0][1], 0)) == "trial_id"
     ok = ok and "self._task_info[trial_id]" in U(g2.node)
     # every other unpacking of _get_rung_system takes the rung system from the same position
     for m_ in P.cls("HyperbandBracketManager").methods.values():
@@ -299,7 +299,7 @@ def s7(ctx, rep):
             ok = U(a0) == "rung_levels"
             ds = [d for d in local_defs(f, U(a1)) if not isinstance(d, tuple)]
             ok = ok and len(ds) == 1 and U(ds[0]).replace(" ", "") == "rung_levels[1:]+[max_t]"
-        why = f"promote_quantiles = {U(lc)} with second list {U(g.iter.args[1]) if isinstance(g.iter, ast.Call) and len(g.iter.args) > 1 else '?'}"
+        why = f"promote_quantiles = {U(lc)} with second list {U(argn(g.iter, 1)) if isinstance(g.iter, ast.Call) and len(g.iter.args) > 1 else '?'}"
     rep.put(ok, "S7", "agreement", "HyperbandBracketManager.__init__: q_j = level_j / level_{j+1} (last: / max_t)", f, pq[0] if pq else None, "",
             why + ": the promotion quantile is not level / next level")
     # each rung system gets levels and quantiles with the same offset
@@ -353,7 +353,7 @@ def s9(ctx, rep):
     for c in [x for x in walk_shallow(f.node) if is_round(x) and x.args]:
         n += 1
         bad = None
-        for y in ast.walk(c.args[0]):
+        for y in ast.walk(argn(c, 0)):
             if isinstance(y, ast.BinOp) and isinstance(y.op, (ast.Mult, ast.Pow, ast.Div, ast.FloorDiv)):
                 for side in (y.left, y.right):
                     if any(is_round(z) for z in ast.walk(side)):
